@@ -58,7 +58,15 @@ def replay(case):
     ent = spc.sp_for()
     text = conc(scn['msg'])
     relay = conc(scn['relay'])
-    dest = 'https://idp1.verif.example/sso' + ('?x=one' if scn['locq'] else '')
+    own = {'pair': 'x=one', 'bare': 'x=one&debug', 'blank': 'next=&x=one'}[scn.get('locqKind', 'pair')] if scn['locq'] else ''
+    dest = 'https://idp1.verif.example/sso' + ('?' + own if own else '')
+
+    def own_query_kept(url):
+        # the destination's own query is the destination's: it stays in front, octet for octet
+        q = urllib.parse.urlsplit(url).query
+        if own and not (q == own or q.startswith(own + '&')):
+            problems.append('the query of the destination (%r) is not kept as it is: %r' % (own, url))
+        return q[len(own) + 1:] if own and q.startswith(own + '&') else q
     problems = []
     b = scn['binding']
     try:
@@ -67,11 +75,13 @@ def replay(case):
             info = http_redirect_message(ARTIFACT, dest, relay_state=relay or '', typ='SAMLart')
             url = dict(info['headers'])['Location']
             try:
-                pairs = urllib.parse.parse_qsl(urllib.parse.urlsplit(url).query, keep_blank_values=True, strict_parsing=True)
+                pairs = urllib.parse.parse_qsl(own_query_kept(url), keep_blank_values=True, strict_parsing=True)
             except ValueError as exc:
-                return {'problems': ['query not parseable by a strict reader: %s (%r)' % (exc, url)]}
+                return {'problems': problems + ['query not parseable by a strict reader: %s (%r)' % (exc, url)]}
             d = dict(pairs)
-            want = sorted(['SAMLart'] + (['x'] if scn['locq'] else []) + (['RelayState'] if relay else []))
+            if own and 'x' not in d:
+                d['x'] = 'one'
+            want = sorted(['SAMLart'] + (['RelayState'] if relay else []))
             if sorted(k for k, _ in pairs) != want:
                 problems.append('parameters on the wire %s, expected %s (%r)' % (sorted(k for k, _ in pairs), want, url))
             if d.get('SAMLart') != ARTIFACT:
@@ -90,17 +100,15 @@ def replay(case):
                 if '#' in url:
                     problems.append('raw # in the redirect URL: %r' % url)
                 try:
-                    pairs = urllib.parse.parse_qsl(parts.query, keep_blank_values=True, strict_parsing=True)
+                    pairs = urllib.parse.parse_qsl(own_query_kept(url), keep_blank_values=True, strict_parsing=True)
                 except ValueError as exc:
-                    return {'problems': ['query not parseable by a strict reader: %s (%r)' % (exc, url)]}
+                    return {'problems': problems + ['query not parseable by a strict reader: %s (%r)' % (exc, url)]}
                 names = sorted(k for k, _ in pairs)
-                want = sorted(([scn['typ']]) + (['x'] if scn['locq'] else []) + (['RelayState'] if relay else []) +
+                want = sorted(([scn['typ']]) + (['RelayState'] if relay else []) +
                               (['SigAlg', 'Signature'] if scn['signed'] else []))
                 if names != want:
                     problems.append('parameters on the wire %s, expected %s (%r)' % (names, want, url))
                 d = dict(pairs)
-                if scn['locq'] and d.get('x') != 'one':
-                    problems.append('existing query parameter altered: x=%r' % d.get('x'))
                 if relay and d.get('RelayState') != relay:
                     problems.append('RelayState %r read back as %r' % (relay, d.get('RelayState')))
                 enc = d.get(scn['typ'], '')
@@ -140,12 +148,14 @@ def replay(case):
             url = info['url']
             parts = urllib.parse.urlsplit(url)
             try:
-                pairs = urllib.parse.parse_qsl(parts.query, keep_blank_values=True, strict_parsing=True)
+                pairs = urllib.parse.parse_qsl(own_query_kept(url), keep_blank_values=True, strict_parsing=True)
             except ValueError as exc:
-                return {'problems': ['query not parseable by a strict reader: %s (%r)' % (exc, url)]}
+                return {'problems': problems + ['query not parseable by a strict reader: %s (%r)' % (exc, url)]}
             names = sorted(k for k, _ in pairs)
-            want = sorted(['SAMLart'] + (['x'] if scn['locq'] else []) + (['RelayState'] if relay else []))
+            want = sorted(['SAMLart'] + (['RelayState'] if relay else []))
             d = dict(pairs)
+            if own:
+                d['x'] = 'one'
             if names != want:
                 problems.append('parameters on the wire %s, expected %s (%r)' % (names, want, url))
             if d.get('SAMLart') != ARTIFACT:
